@@ -97,7 +97,7 @@ def shared_sequence(rng):
 
 
 def run(ctx):
-    ctx.regen(["scantok"])
+    ctx.regen(["scantok", "scanconst"])
     sc.gen_notes(ctx)
     ctx.prove("C32")
     R = sc.Runner(ctx)
